@@ -1452,6 +1452,21 @@ def safe_verdicts(tx, flags=None):
     return out
 
 
+def valid_without_signatures(tx, p):
+    """consensus verdict (independent interpreter, P2SH+WITNESS rules) of input p when *every* signature / lock-time check
+    fails.  A tampered puzzle that still succeeds then (e.g. `<key> OP_CHECKSIG OP_16`: the failed check is buried under a
+    true constant) is valid whatever the signatures commit to -- consensus, not a tamper-evidence failure."""
+    try:
+        import spec.consensus_script as cs
+        u = tx.unspents[p]
+        if u is None:
+            return False
+        ok, _err = cs.verify_script(bytes(tx.txs_in[p].script), bytes(u.script), [bytes(w) for w in tx.txs_in[p].witness], "P2SH,WITNESS", cs.BaseChecker())
+        return bool(ok)
+    except Exception:
+        return False
+
+
 def tamper_one(t, sg, names_applies, step, check_std, check_repeat, seq_id, check_fresh=True):
     """apply the given mutation(s) cumulatively on the same object, validate, compare with the oracle; returns undo list"""
     ctx, tx = sg.ctx, sg.tx
@@ -1467,6 +1482,7 @@ def tamper_one(t, sg, names_applies, step, check_std, check_repeat, seq_id, chec
     rep = ("import sys; sys.path[:0]=['/verif','/repo']; import contracts.c05_bounded as H\n"
            "print(H.replay_tamper(%r, %r, %r))" % (sg.replay, names, seq_id))
     pos = sg.positions()
+    sigfree = set()
     nontrivial = any(o is not None for o in pos)
     t.case(key=("tamper", sg.label, tuple(names)), nontrivial=nontrivial, sample=dict(desc, expected=e1, got=got) if step % 97 == 5 else None)
     if e1 != e2 and sg.ref_ok:
@@ -1480,6 +1496,9 @@ def tamper_one(t, sg, names_applies, step, check_std, check_repeat, seq_id, chec
             _viol(t, "validation of a tampered transaction raises instead of giving a verdict: %s" % g, dict(desc, position=p), rep,
                   "validate-raises-" + g.split()[1].rstrip(":"))
         elif g and not e:
+            if valid_without_signatures(tx, p):
+                sigfree.add(p)
+                continue      # the mutated puzzle no longer depends on a signature: "valid" is the consensus verdict
             missing = p >= len(cur["unspents"]) or cur["unspents"][p] is None
             _viol(t, "input at position %d (original %s) still reported valid after a change to a field its hash type commits%s"
                   % (p, o, " -- spent output unknown" if missing else ""), dict(desc, position=p, expected=e1, got=got), rep,
@@ -1509,7 +1528,8 @@ def tamper_one(t, sg, names_applies, step, check_std, check_repeat, seq_id, chec
             _viol(t, "second validation of the same object says %s, the first said %s" % (g2, got), desc, rep, "validation-not-repeatable")
     if check_std:
         gs = safe_verdicts(tx, ctx.std_flags)
-        if gs != got:
+        # (positions whose tampered puzzle is signature-free are judged by policy flags such as NULLFAIL / CLEANSTACK alone)
+        if [v for i_, v in enumerate(gs) if i_ not in sigfree] != [v for i_, v in enumerate(got) if i_ not in sigfree]:
             _viol(t, "STANDARD-flag verdicts %s differ from default-flag verdicts %s on a tampered transaction (no encoding was touched)" % (gs, got),
                   desc, rep, "standard-and-default-verdicts-diverge")
     return undos
